@@ -16,6 +16,7 @@ import RF.Driver.TokEquiv
 import RF.Driver.Idem
 import RF.Driver.Literal
 import RF.Driver.Comment
+import RF.Driver.ParseErrs
 /-!
 `rfmodel`: one request per line on stdin, one response per line on stdout.
 `?` is printed for a request no handler understands (the harness treats it as a protocol error,
@@ -41,6 +42,7 @@ def handlers : List (String → List String → Option String) :=
    RF.Driver.Idem.handle,
    RF.Driver.Literal.handle,
    RF.Driver.Comment.handle]
+   RF.Driver.ParseErrs.handle]
 
 def dispatch (line : String) : String :=
   match (line.trimAscii.toString.splitOn " ").filter (· ≠ "") with
